@@ -695,7 +695,7 @@ pub mod qpack {
         out.extend_from_slice(data);
     }
 
-    fn decode_string(n: u32, buf: &[u8]) -> Result<(Vec<u8>, bool, usize), String> {
+    fn decode_string(n: u32, buf: &[u8]) -> Result<(Vec<u8>, bool, usize, usize), String> {
         let first = *buf.first().ok_or("eof in string")?;
         let huff = (first >> n) & 1 == 1;
         let (len, used) = decode_int(n, buf).map_err(|e| format!("string length: {e:?}"))?;
@@ -707,7 +707,7 @@ pub mod qpack {
         } else {
             data.to_vec()
         };
-        Ok((bytes, huff, end))
+        Ok((bytes, huff, end, used))
     }
 
     #[derive(Clone, Debug, PartialEq, Eq)]
@@ -735,6 +735,9 @@ pub mod qpack {
         pub fields: Vec<Field>,
         /// largest prefix integer met anywhere in the section (indices, lengths, prefix)
         pub max_int: u128,
+        /// longest prefix-integer encoding (in octets) met anywhere in the section; RFC 7541 §5.1
+        /// lets implementations refuse integers that exceed their limits "in value or octet length"
+        pub max_int_octets: usize,
     }
 
     /// Strict decoder: any dynamic-table reference or malformed element is an error.
@@ -746,6 +749,7 @@ pub mod qpack {
         let mut pos = a + b;
         let mut fields = Vec::new();
         let mut max_int = ric.max(db);
+        let mut max_int_octets = a.max(b);
         while pos < buf.len() {
             let f = buf[pos];
             if f & 0x80 != 0 {
@@ -755,6 +759,7 @@ pub mod qpack {
                 }
                 let (idx, used) = decode_int(6, &buf[pos..]).map_err(|e| format!("{e:?}"))?;
                 max_int = max_int.max(idx);
+                max_int_octets = max_int_octets.max(used);
                 let idx = usize::try_from(idx).map_err(|_| "index too large")?;
                 let (n, v) = STATIC_TABLE.get(idx).ok_or("static index out of range")?;
                 fields.push(Field {
@@ -771,11 +776,13 @@ pub mod qpack {
                 let never = f & 0x20 != 0;
                 let (idx, used) = decode_int(4, &buf[pos..]).map_err(|e| format!("{e:?}"))?;
                 max_int = max_int.max(idx);
+                max_int_octets = max_int_octets.max(used);
                 let idx = usize::try_from(idx).map_err(|_| "index too large")?;
                 let (n, _) = STATIC_TABLE.get(idx).ok_or("static name index out of range")?;
                 pos += used;
-                let (value, hv, used) = decode_string(7, &buf[pos..])?;
+                let (value, hv, used, io) = decode_string(7, &buf[pos..])?;
                 max_int = max_int.max(used as u128);
+                max_int_octets = max_int_octets.max(io);
                 pos += used;
                 fields.push(Field {
                     name: n.as_bytes().to_vec(),
@@ -785,11 +792,13 @@ pub mod qpack {
             } else if f & 0x20 != 0 {
                 // 001 N H namelen(3+)
                 let never = f & 0x10 != 0;
-                let (name, hn, used) = decode_string(3, &buf[pos..])?;
+                let (name, hn, used, io) = decode_string(3, &buf[pos..])?;
                 max_int = max_int.max(used as u128);
+                max_int_octets = max_int_octets.max(io);
                 pos += used;
-                let (value, hv, used) = decode_string(7, &buf[pos..])?;
+                let (value, hv, used, io) = decode_string(7, &buf[pos..])?;
                 max_int = max_int.max(used as u128);
+                max_int_octets = max_int_octets.max(io);
                 pos += used;
                 fields.push(Field {
                     name,
@@ -802,7 +811,7 @@ pub mod qpack {
                 return Err("literal with post-base name reference".into());
             }
         }
-        Ok(Section { required_insert_count: ric, sign, delta_base: db, fields, max_int })
+        Ok(Section { required_insert_count: ric, sign, delta_base: db, fields, max_int, max_int_octets })
     }
 
     #[derive(Clone, Copy, Debug, PartialEq, Eq)]
@@ -1241,7 +1250,7 @@ pub mod report {
                 ("engine", J::s(engine)),
                 ("evaluations", J::u(self.evaluations)),
                 ("distinct_classes", J::u(self.classes.len() as u64)),
-                ("classes_head", J::Arr(self.classes.iter().take(40).map(|c| J::s(c.clone())).collect())),
+                ("classes", J::Arr(self.classes.iter().map(|c| J::s(c.clone())).collect())),
                 ("samples", J::Arr(self.samples.clone())),
                 (
                     "violations",
